@@ -251,6 +251,39 @@ pub fn run(ctx: &RunCtx) -> i32 {
         r.sym("fill-drain-refill");
         shared.merge(r);
     });
+    // a limit above 255 (a narrower counter would wrap): fill 300, probe, let all expire in one timer call, refill
+    {
+        let cfg = Cfg { transport: Transport::Unreliable { rto_ms: 100, gran_ms: 1, rm: 2, rc: 2 }, mech: Mech::None, fingerprint: false, max_tx: 300 };
+        let mut r = Report::new();
+        let proto = Mon::new(1000);
+        let mut run = explore::start(&cfg, &apps, &proto);
+        let mut hist: Vec<Event> = vec![];
+        for round in 0..2 {
+            for _ in 0..=300 {
+                let ev = Event::Send { app: 0 };
+                hist.push(ev.clone());
+                let h = hist.clone();
+                explore::step(&mut run, &ev, Some((&mut r, &h)));
+            }
+            let mut guard = 0;
+            while !run.w.awaiting().is_empty() && guard < 10 {
+                guard += 1;
+                let t = explore::interesting_points(&run.w).last().copied().unwrap_or(run.w.now) + 1_000_000;
+                for ev in [Event::AdvanceTo(t), Event::Timer] {
+                    hist.push(ev.clone());
+                    let h = hist.clone();
+                    explore::step(&mut run, &ev, Some((&mut r, &h)));
+                }
+            }
+            if !run.w.awaiting().is_empty() {
+                r.violate("requests-never-finish-in-drain", format!("limit 300 round {}", round), json!({"config": cfg.show()}));
+            }
+        }
+        r.transitions += hist.len() as u64;
+        r.states += hist.len() as u64;
+        r.sym("limit-300");
+        shared.merge(r);
+    }
     let mut rep = shared.into_inner();
     rep.extra.insert("per_config".into(), json!(per));
     crate::util::finish(
@@ -258,9 +291,9 @@ pub fn run(ctx: &RunCtx) -> i32 {
         rep,
         Finish {
             level: "model_checking",
-            rule: "breadth-first exploration of the real client for limits 0..=4 (depth 2*limit+4, capped at 9 quick / 11 thorough) x 4 transport/mechanism configurations over {Send (also probing a full table), Send with a 16-byte buffer (must fail without taking a slot), Indicate, Timer, AdvanceTo(next point, +1 ms, beyond), Deliver(each of the first two awaiting requests x reply menu incl. auth-failing, 401, 438), Deliver(unknown id), undecodable bytes}; default limit 10: directed fill-to-limit(+1 probe) / drain / refill executions for every pair of final-outcome kinds and every split of the ten requests between them, two rounds. Monitor: send_request refused iff independently counted unfinished requests == limit; a refusal yields no event and an identical snapshot".into(),
+            rule: "breadth-first exploration of the real client for limits 0..=4 (depth 2*limit+4, capped at 9 quick / 11 thorough) x 4 transport/mechanism configurations over {Send (also probing a full table), Send with a 16-byte buffer (must fail without taking a slot), Indicate, Timer, AdvanceTo(next point, +1 ms, beyond), Deliver(each of the first two awaiting requests x reply menu incl. auth-failing, 401, 438), Deliver(unknown id), undecodable bytes}; default limit 10: directed fill-to-limit(+1 probe) / drain / refill executions for every pair of final-outcome kinds and every split of the ten requests between them, two rounds; limit 300: fill, probe, expire all in one timer call, refill. Monitor: send_request refused iff independently counted unfinished requests == limit; a refusal yields no event and an identical snapshot".into(),
             assumptions: vec!["a final outcome is what the application observes (response delivered, TransactionFailed, Retry)".into()],
-            required_symbols: vec!["Send", "Indicate", "Timer", "Deliver", "refused-at-limit", "accepted-below-limit", "fill-drain-refill", "bfs-configs", "failed-send-clean"],
+            required_symbols: vec!["Send", "Indicate", "Timer", "Deliver", "refused-at-limit", "accepted-below-limit", "fill-drain-refill", "bfs-configs", "failed-send-clean", "limit-300"],
             min_outcomes: 6,
             exhaustive: true,
             bounds: json!({"limits": [0,1,2,3,4,10]}),
